@@ -1075,6 +1075,52 @@ func c01TextForms(r *Report, s *Sem, R6 string) {
 		ok = nCalls > 0 && bad == 0
 		r.Check(R6, "func ParseNode / identity is the part before the instance separator", p.pos(pn.Pos()), ok, "every ParseIdentity call in ParseNode gets the text before the first '/' (element 0 of the split, input[:index of '/'], or the whole input where no separator was found)")
 	}
+	// index-based parsers: the only "no separator" test of a position is `< 0` (or `== -1` / its complements); `<= 0` or
+	// `> 0` treats a separator in first position as absent, and a value with an empty first part does not parse back
+	for _, pn := range []string{"ParseNode", "ParseIdentity", "ParseMediaType"} {
+		fn := p.Func(pn)
+		if fn == nil {
+			continue
+		}
+		bad := ""
+		eachInstr(fn, func(in ssa.Instruction) {
+			bo, ok := in.(*ssa.BinOp)
+			if !ok {
+				return
+			}
+			x, y, op := bo.X, bo.Y, bo.Op
+			if _, isC := stripConv(x).(*ssa.Const); isC {
+				x, y = y, x
+				switch op {
+				case token.LSS:
+					op = token.GTR
+				case token.LEQ:
+					op = token.GEQ
+				case token.GTR:
+					op = token.LSS
+				case token.GEQ:
+					op = token.LEQ
+				}
+			}
+			call, _ := callOf(stripConv(x))
+			if call == nil {
+				return
+			}
+			g := call.Call.StaticCallee()
+			if g == nil || g.Pkg == nil || (g.Pkg.Pkg.Path() != "strings" && g.Pkg.Pkg.Path() != "bytes") || !strings.Contains(g.Name(), "Index") {
+				return
+			}
+			k, isK := constInt(stripConv(y))
+			if !isK {
+				return
+			}
+			switch {
+			case op == token.LEQ && k == 0, op == token.GTR && k == 0, op == token.LSS && k == 1, op == token.GEQ && k == 1, op == token.EQL && k == 0, op == token.NEQ && k == 0:
+				bad = fmt.Sprintf("position compared with %s %d at %s", op, k, p.instrPos(in))
+			}
+		})
+		r.Trivial(R6, "func "+pn+" / a separator in first position is still a separator", p.pos(fn.Pos()), bad == "", bad)
+	}
 	for _, et := range []string{"SessionState", "NotificationEvent", "CommandMethod"} {
 		nt := p.Type(et)
 		val, mt, ut := p.Method(et, "Validate"), p.Method(et, "MarshalText"), p.Method(et, "UnmarshalText")
